@@ -42,6 +42,9 @@ type faultSpec struct {
 	Kind string `json:"kind"` // fail | hang | diebefore | dieafter | crashmgr | zkloss | zkfail
 	Errno int   `json:"errno,omitempty"`
 	Times int   `json:"times,omitempty"` // with Occ = 0: only the first Times occurrences (0 = every one)
+	By        string `json:"by,omitempty"` // count only the calls of this mysync instance
+	Target    string `json:"target,omitempty"` // crashhost_after: the server that dies
+	FromStart bool `json:"fromstart,omitempty"` // occurrences are counted from the very start (incl. the start-up activations)
 }
 
 type vScenario struct {
@@ -167,6 +170,7 @@ type vHook struct {
 	onFire  func()
 	mutOnly bool
 	pendingZk *faultSpec
+	byN       int
 	extra     verifsim.MyHook // property-specific hook consulted first
 }
 
@@ -191,7 +195,7 @@ func (h *vHook) disarm() {
 }
 
 // match returns the fault to apply to this call (nil if none).
-func (h *vHook) match(ch, stmt, at string, mut bool) *faultSpec {
+func (h *vHook) match(ch, stmt, at string, mut bool, by ...string) *faultSpec {
 	h.mu.Lock()
 	defer h.mu.Unlock()
 	if !h.armed {
@@ -206,6 +210,14 @@ func (h *vHook) match(ch, stmt, at string, mut bool) *faultSpec {
 	f := h.fault
 	if f == nil || f.Chan != ch || f.Stmt != stmt || f.At != at {
 		return nil
+	}
+	if f.By != "" {
+		// occurrences are those of one caller only (e.g. the manager's own probes of the master)
+		if len(by) == 0 || by[0] != f.By {
+			return nil
+		}
+		h.byN++
+		occ = h.byN
 	}
 	if f.Occ == 0 {
 		if f.Times > 0 && occ > f.Times {
@@ -229,7 +241,7 @@ func (h *vHook) BeforeSQL(c *verifsim.SQLCall) verifsim.Decision {
 			return d
 		}
 	}
-	f := h.match("sql", c.Stmt, c.At, c.Mut)
+	f := h.match("sql", c.Stmt, c.At, c.Mut, c.By)
 	if f == nil {
 		return verifsim.Decision{}
 	}
@@ -264,7 +276,7 @@ func (h *vHook) AfterSQL(c *verifsim.SQLCall, res string) {
 	h.mu.Lock()
 	f := h.fault
 	hit := h.armed && f != nil && !h.fired && f.Chan == "sql" && f.Stmt == c.Stmt && f.At == c.At &&
-		h.counts["sql|"+c.Stmt+"|"+c.At] == f.Occ && (f.Kind == "dieafter" || f.Kind == "crashmgr" || f.Kind == "zkloss" || f.Kind == "zkexpire" || f.Kind == "zkexpire_other")
+		h.counts["sql|"+c.Stmt+"|"+c.At] == f.Occ && (f.Kind == "dieafter" || f.Kind == "crashmgr" || f.Kind == "zkloss" || f.Kind == "zkexpire" || f.Kind == "zkexpire_other" || f.Kind == "crashhost_after")
 	if hit {
 		h.fired = true
 	}
@@ -274,6 +286,10 @@ func (h *vHook) AfterSQL(c *verifsim.SQLCall, res string) {
 		switch f.Kind {
 		case "dieafter":
 			h.s.W.Crash(c.At)
+		case "crashhost_after":
+			// another server (f.Target, e.g. the master) dies right after this call was answered
+			h.s.appEv(c.By, "Fault", fmt.Sprintf("crash of %s after %s@%s#%d", f.Target, f.Stmt, f.At, f.Occ), "")
+			h.s.W.Crash(f.Target)
 		case "crashmgr":
 			h.s.kill(c.By)
 		case "zkloss":
